@@ -13,7 +13,7 @@ import re
 
 from common import REPO, WORK
 
-GEN_DIR = os.path.join(WORK, "gen")
+GEN_DIR = os.path.join(WORK, "gen" + os.environ.get("VERIF_KANI_TARGET_SUFFIX", ""))
 
 
 def find_fn_body(src, fn_regex):
